@@ -122,6 +122,22 @@ pub fn c05(tier: Tier) -> Vec<Case> {
             b.add_variant(grp, vi, "memo-subsets", gv, inputs.clone(), &format!("mask{mask}"));
         }
     }
+    // @memoize together with a pure @check that refuses some values (chk_nob: values containing the letter b)
+    let inputs = memo_inputs(tier);
+    let step = if tier == Tier::Quick { 3 } else { 1 };
+    for (g, names) in memo_bases(Tier::Quick).into_iter().step_by(step) {
+        for which in ["A", "B"] {
+            let mut g2 = g.clone();
+            if let Some(r) = g2.rules.iter_mut().find(|r| r.name == which) {
+                r.directives.insert(0, Directive::Check(vec!["hrt".into(), "user".into(), "chk_nob".into()]));
+            }
+            let grp = b.new_group();
+            for (vi, mask) in subsets(names.len()).into_iter().enumerate() {
+                let gv = with_memo(&g2, &names, mask);
+                b.add_variant(grp, vi, "memo-subsets/with-check", gv, inputs.clone(), &format!("mask{mask}"));
+            }
+        }
+    }
     let inputs = memo_inputs_ws(tier);
     for (g, names) in memo_bases_mixed_skip(tier) {
         let grp = b.new_group();
@@ -162,8 +178,42 @@ pub fn with_probes(g: &Grammar) -> Grammar {
     Grammar { rules }
 }
 
+/// a left-recursive rule whose operands are memoized rules: the memoized ones must still be evaluated once per position
+fn leftrec_memo_bases() -> Vec<Grammar> {
+    let mut out = Vec::new();
+    let t_bodies = vec![lit("n"), seq(vec![lit("n"), opt(lit("!"))]), choice(vec![seq(vec![lit("("), bfield("e", "E"), lit(")")]), lit("n")])];
+    let e_bodies = vec![
+        choice(vec![seq(vec![bfield("l", "E"), lit("+"), field("r", "T")]), field("t", "T")]),
+        choice(vec![seq(vec![bfield("l", "E"), lit("+"), field("r", "T")]), seq(vec![bfield("l", "E"), lit("!")]), field("t", "T")]),
+        choice(vec![seq(vec![bfield("l", "E"), field("r", "T")]), field("t", "T")]),
+    ];
+    let roots = vec![field("e", "E"), choice(vec![seq(vec![field("e", "E"), lit("=")]), field("e", "E")]), seq(vec![opt(field("t", "T")), opt(field("e", "E"))])];
+    for t in &t_bodies {
+        for e in &e_bodies {
+            for r in &roots {
+                for tmemo in [true, false] {
+                    let g = Grammar {
+                        rules: vec![
+                            Rule::normal("Root", vec![Directive::Export, Directive::NoSkipWs, Directive::Position], r.clone()),
+                            Rule::normal("E", vec![Directive::Leftrec, Directive::NoSkipWs, Directive::Position], e.clone()),
+                            Rule::normal("T", if tmemo { vec![Directive::Memoize, Directive::NoSkipWs, Directive::Position] } else { vec![Directive::NoSkipWs, Directive::Position] }, t.clone()),
+                        ],
+                    };
+                    if wf::well_formed(&g) {
+                        out.push(g);
+                    }
+                }
+            }
+        }
+    }
+    out
+}
+
 pub fn c06(tier: Tier) -> Vec<Case> {
     let mut b = Builder::new();
+    for g in leftrec_memo_bases() {
+        b.add("memo-probes/with-leftrec", with_probes(&g), InputSpec::Strings { alphabet: vec!['n', '+', '!', '('], max_len: if tier == Tier::Quick { 4 } else { 5 } });
+    }
     let inputs = memo_inputs(tier);
     for (g, names) in memo_bases(tier) {
         for mask in subsets(names.len()) {
@@ -227,7 +277,7 @@ pub fn c07(tier: Tier) -> Vec<Case> {
     for ts in &tail_sets {
         for bs in &base_sets {
             for base_first in [false, true] {
-                for root_kind in 0..2 {
+                for root_kind in 0..3 {
                     let mut arms: Vec<Expr> = Vec::new();
                     let recs: Vec<Expr> = ts.iter().map(|i| rec(&tails[*i].1)).collect();
                     let bas: Vec<Expr> = bs.iter().map(|i| bases[*i].1.clone()).collect();
@@ -238,7 +288,13 @@ pub fn c07(tier: Tier) -> Vec<Case> {
                         arms.extend(recs.iter().cloned());
                         arms.extend(bas.iter().cloned());
                     }
-                    let root = if root_kind == 0 { field("a", "A") } else { seq(vec![field("a", "A"), Expr::Eoi]) };
+                    // kind 2: the first alternative always fails after A matched ('=' is not in the alphabet),
+                    // so A is asked for a second time at the same position
+                    let root = match root_kind {
+                        0 => field("a", "A"),
+                        1 => seq(vec![field("a", "A"), Expr::Eoi]),
+                        _ => choice(vec![seq(vec![field("a", "A"), lit("=")]), field("a", "A")]),
+                    };
                     let g = Grammar {
                         rules: vec![
                             Rule::normal("Root", vec![Directive::Export, Directive::Position, Directive::NoSkipWs], root),
@@ -290,7 +346,12 @@ pub fn c07(tier: Tier) -> Vec<Case> {
         ("nullable-base", choice(vec![seq(vec![bfield("l", "A"), lit("x")]), opt(field("n", "N"))])),
     ];
     for (name, body) in unusual {
-        for root in [field("a", "A"), seq(vec![field("a", "A"), Expr::Eoi]), seq(vec![opt(lit("+")), field("a", "A"), opt(field("b", "A"))])] {
+        for root in [
+            field("a", "A"),
+            seq(vec![field("a", "A"), Expr::Eoi]),
+            seq(vec![opt(lit("+")), field("a", "A"), opt(field("b", "A"))]),
+            choice(vec![seq(vec![field("a", "A"), lit("=")]), seq(vec![and(rref("A")), field("a", "A")])]),
+        ] {
             let g = Grammar {
                 rules: vec![
                     Rule::normal("Root", vec![Directive::Export, Directive::Position, Directive::NoSkipWs], root),
@@ -408,8 +469,14 @@ pub fn c13(tier: Tier) -> Vec<Case> {
                         v
                     };
                     let rd = dirs(root_noskip, &[Directive::Export, Directive::Position]);
-                    let g_inc = root_grammar(rd.clone(), fill(c, &inc("Inc")), &leaves(true));
-                    let g_inl = root_grammar(rd.clone(), fill(c, &group(body.clone())), &leaves(false));
+                    let mut g_inc = root_grammar(rd.clone(), fill(c, &inc("Inc")), &leaves(true));
+                    let mut g_inl = root_grammar(rd.clone(), fill(c, &group(body.clone())), &leaves(false));
+                    // another includer of the same rule, with the opposite skip mode, placed before Root
+                    // (never called: it must not influence what Root's include expands to)
+                    if *dn == "plain" || *dn == "no_skip_ws" {
+                        g_inc.rules.insert(0, Rule::normal("Other", dirs(!root_noskip, &[]), seq(vec![lit("c"), inc("Inc")])));
+                        g_inl.rules.insert(0, Rule::normal("Other", dirs(!root_noskip, &[]), seq(vec![lit("c"), group(body.clone())])));
+                    }
                     // the quantifier: both must be well-formed as far as the *inlined* grammar goes
                     if !wf::well_formed(&g_inl) {
                         continue;
